@@ -1550,6 +1550,34 @@ where
     }
 }
 
+/// Verification hooks (feature `verif-hooks`, default off, add-only).
+#[cfg(feature = "verif-hooks")]
+impl<F, K, P, N> FieldChip<F, K, P, N>
+where
+    F: CircuitField,
+    K: CircuitField,
+    P: FieldEmulationParams<F, K>,
+    N: NativeInstructions<F>,
+{
+    /// The crate-private `normalize` (normalizes unless the tracked bounds are well-formed).
+    pub fn verif_normalize(
+        &self,
+        layouter: &mut impl Layouter<F>,
+        x: &AssignedField<F, K, P>,
+    ) -> Result<AssignedField<F, K, P>, Error> {
+        self.normalize(layouter, x)
+    }
+
+    /// The crate-private `normalize_if_approaching_limit`.
+    pub fn verif_normalize_if_approaching_limit(
+        &self,
+        layouter: &mut impl Layouter<F>,
+        x: &AssignedField<F, K, P>,
+    ) -> Result<AssignedField<F, K, P>, Error> {
+        self.normalize_if_approaching_limit(layouter, x)
+    }
+}
+
 // Inherit Bit Assignment Instructions from NativeGadget.
 impl<F, K, P, N> AssignmentInstructions<F, AssignedBit<F>> for FieldChip<F, K, P, N>
 where
